@@ -50,6 +50,7 @@ def observe_tree(root, per_node=True):
 
     ev = {"name": [n.name if isinstance(n.name, str) and n.name.isascii() else "~nonascii" for n in nodes],
           "kids": [[idx[id(c)] for c in n.children] for n in nodes], "root": 1,
+          "plain": [not n.attributes and n.content is None for n in nodes],
           "nodeFF": [], "nodeRaised": [], "nodeErrs": [], "nodeShape": []}
     for n in nodes:
         if per_node:
